@@ -2,14 +2,14 @@ package c14
 
 import (
 	"context"
-
 	"database/sql"
 	"database/sql/driver"
 	"fmt"
-	"github.com/go-sql-driver/mysql"
 	"io"
 	"strings"
 	"sync"
+
+	"github.com/go-sql-driver/mysql"
 )
 
 // simsql: a recording in-memory database/sql/driver with fault points at
@@ -139,34 +139,77 @@ type simDB struct {
 	whoFn func() int
 
 	// fault plan (set before the transactions start, read-only afterwards)
-	plans        map[int]*txFaults // per client
+	plans        map[int]*txFaults // per transaction (world id)
 	failStmt     map[int]bool      // statement tag -> its exec/query call fails
 	failPrepare  map[int]bool      // statement tag -> its prepare call fails
 	emptyStmt    map[int]bool      // statement tag -> query returns no rows
+	failRows     map[int]bool      // statement tag -> the result set breaks after its first row (rows.Err)
 	faultsFired  map[string]int
+	firedIdents  map[string]int // "<fault point>-<identity name>" -> times injected (coverage only)
 	injectedErrs map[string]error
-	// errKind selects the identity of the injected errors (drawn per run): 0 an error of the
-	// stub's own, 1 driver.ErrBadConn, 2 go-sql-driver's mysql.ErrInvalidConn, 3 an error
-	// wrapping driver.ErrBadConn.  Kinds 1 and 3 make database/sql retry a failed Begin on
-	// other connections (its documented bad-connection handling).
-	errKind int
 }
 
-// txFaults are the transaction-layer fault points armed for one client.
+// txFaults are the fault points armed for one transaction (one Transact call), and the
+// identity of the error injected at each point.
 type txFaults struct {
 	failConnect, failBegin, failCommit, failRollback bool
+	// ident: fault point ("connect", "begin", "stmt", "prepare", "rows", "commit", "rollback")
+	// -> index into identNames.  Identities 1 and 3 make database/sql retry a failed Begin on
+	// other connections (its documented bad-connection handling).
+	ident map[string]int
+}
+
+// identities of injected driver errors; 0 is the simplest (an opaque error of the stub's own)
+var identNames = [...]string{
+	"own", "driver.ErrBadConn", "mysql.ErrInvalidConn", "wrapped-ErrBadConn",
+	"sql.ErrTxDone", "sql.ErrConnDone", "context.Canceled", "context.DeadlineExceeded",
+	"mysql-1213-deadlock", "mysql-1062-duplicate", "wrapped-io.ErrUnexpectedEOF", "sql.ErrNoRows",
+	"mysql-1205-lock-wait-timeout",
+}
+
+func isBadConnIdent(id int) bool { return id == 1 || id == 3 }
+
+func makeIdentErr(ident int, text string) error {
+	switch ident {
+	case 1:
+		return driver.ErrBadConn
+	case 2:
+		return mysql.ErrInvalidConn
+	case 3:
+		return fmt.Errorf("%s: %w", text, driver.ErrBadConn)
+	case 4:
+		return sql.ErrTxDone
+	case 5:
+		return sql.ErrConnDone
+	case 6:
+		return context.Canceled
+	case 7:
+		return context.DeadlineExceeded
+	case 8:
+		return &mysql.MySQLError{Number: 1213, SQLState: [5]byte{'4', '0', '0', '0', '1'}, Message: "Deadlock found when trying to get lock; try restarting transaction (" + text + ")"}
+	case 9:
+		return &mysql.MySQLError{Number: 1062, SQLState: [5]byte{'2', '3', '0', '0', '0'}, Message: "Duplicate entry '7' for key 'PRIMARY' (" + text + ")"}
+	case 10:
+		return fmt.Errorf("%s: %w", text, io.ErrUnexpectedEOF)
+	case 11:
+		return sql.ErrNoRows
+	case 12:
+		return &mysql.MySQLError{Number: 1205, SQLState: [5]byte{'H', 'Y', '0', '0', '0'}, Message: "Lock wait timeout exceeded; try restarting transaction (" + text + ")"}
+	default:
+		return fmt.Errorf("%s", text)
+	}
 }
 
 var noFaults = &txFaults{}
 
 func newSimDB(name string) *simDB {
-	return &simDB{name: name, plans: map[int]*txFaults{}, failStmt: map[int]bool{}, failPrepare: map[int]bool{}, emptyStmt: map[int]bool{},
-		faultsFired: map[string]int{}, injectedErrs: map[string]error{}}
+	return &simDB{name: name, plans: map[int]*txFaults{}, failStmt: map[int]bool{}, failPrepare: map[int]bool{}, emptyStmt: map[int]bool{}, failRows: map[int]bool{},
+		faultsFired: map[string]int{}, firedIdents: map[string]int{}, injectedErrs: map[string]error{}}
 }
 
 func (db *simDB) who() int {
 	if db.whoFn == nil {
-		return 0
+		return -1
 	}
 	return db.whoFn()
 }
@@ -182,20 +225,12 @@ func (db *simDB) plan(client int) *txFaults {
 func (db *simDB) injected(client int, what string) error {
 	key := fmt.Sprintf("c%d/%s", client, what)
 	db.faultsFired[key]++
+	ident := db.plan(client).ident[what]
+	db.firedIdents[what+"-"+identNames[ident]]++
 	if e := db.injectedErrs[key]; e != nil {
 		return e
 	}
-	var e error
-	switch db.errKind {
-	case 1:
-		e = driver.ErrBadConn
-	case 2:
-		e = mysql.ErrInvalidConn
-	case 3:
-		e = fmt.Errorf("simsql[%s]: injected %s failure (client %d): %w", db.name, what, client, driver.ErrBadConn)
-	default:
-		e = fmt.Errorf("simsql[%s]: injected %s failure (client %d)", db.name, what, client)
-	}
+	e := makeIdentErr(ident, fmt.Sprintf("simsql[%s]: injected %s failure (transaction c%d)", db.name, what, client))
 	db.injectedErrs[key] = e
 	return e
 }
@@ -311,6 +346,15 @@ func (t *simTx) end(op string) error {
 func (t *simTx) Commit() error   { return t.end(opCommit) }
 func (t *simTx) Rollback() error { return t.end(opRollback) }
 
+// stmtOwner is the transaction whose fault plan decides the identity of a statement's injected
+// error: the one named in the statement's tag (the calling task's current one for untagged text).
+func (db *simDB) stmtOwner(tag int) int {
+	if tag != 0 {
+		return tag / 100
+	}
+	return db.who()
+}
+
 func (c *simConn) Prepare(q string) (driver.Stmt, error) {
 	db := c.db
 	tag := stmtTag(q)
@@ -318,7 +362,7 @@ func (c *simConn) Prepare(q string) (driver.Stmt, error) {
 	defer db.mu.Unlock()
 	cl := db.who()
 	if db.failPrepare[tag] {
-		err := db.injected(cl, "prepare")
+		err := db.injected(db.stmtOwner(tag), "prepare")
 		db.recordLocked(dbEvent{op: opPrepare, client: cl, tag: tag, conn: c.id, tx: c.tx, err: err})
 		return nil, err
 	}
@@ -333,7 +377,7 @@ func (c *simConn) exec(q string) (driver.Result, error) {
 	defer db.mu.Unlock()
 	cl := db.who()
 	if db.failStmt[tag] {
-		err := db.injected(cl, "stmt")
+		err := db.injected(db.stmtOwner(tag), "stmt")
 		db.recordLocked(dbEvent{op: opExec, client: cl, tag: tag, conn: c.id, tx: c.tx, err: err})
 		return nil, err
 	}
@@ -348,16 +392,21 @@ func (c *simConn) query(q string) (driver.Rows, error) {
 	defer db.mu.Unlock()
 	cl := db.who()
 	if db.failStmt[tag] {
-		err := db.injected(cl, "stmt")
+		err := db.injected(db.stmtOwner(tag), "stmt")
 		db.recordLocked(dbEvent{op: opQuery, client: cl, tag: tag, conn: c.id, tx: c.tx, err: err})
 		return nil, err
 	}
 	db.recordLocked(dbEvent{op: opQuery, client: cl, tag: tag, conn: c.id, tx: c.tx})
 	rows := &simRows{}
 	if db.emptyStmt[tag] {
-		db.faultsFired[fmt.Sprintf("c%d/empty", cl)]++
+		db.faultsFired[fmt.Sprintf("c%d/empty", db.stmtOwner(tag))]++
 	} else {
 		rows.data = [][]driver.Value{{int64(100 + tag)}, {int64(200 + tag)}}
+		if db.failRows[tag] {
+			// the first row arrives, then the result set breaks (reported by rows.Err)
+			rows.data = rows.data[:1]
+			rows.tail = db.injected(db.stmtOwner(tag), "rows")
+		}
 	}
 	return rows, nil
 }
@@ -385,6 +434,7 @@ func (s *simStmt) Query([]driver.Value) (driver.Rows, error)  { return s.c.query
 type simRows struct {
 	data [][]driver.Value
 	i    int
+	tail error // returned instead of io.EOF after the last row
 }
 
 func (r *simRows) Columns() []string { return []string{"v"} }
@@ -392,6 +442,9 @@ func (r *simRows) Close() error      { return nil }
 
 func (r *simRows) Next(dest []driver.Value) error {
 	if r.i >= len(r.data) {
+		if r.tail != nil {
+			return r.tail
+		}
 		return io.EOF
 	}
 	copy(dest, r.data[r.i])
